@@ -52,9 +52,17 @@ class Inherit(Generic[F]):
 
         patched = self._func
         contracts: Contracts | None
-        for base in self._cls.mro()[1:]:
+        bases = self._cls.mro()[1:]
+        # The function can be the one of a base class (the class decorator
+        # wraps inherited methods too). Never extend the contracts of that
+        # base class method, work on a private copy of it.
+        contracts = getattr(patched, ATTR, None)
+        inherited = any(getattr(base, self._func.__name__, None) is self._func for base in bases)
+        if inherited and isinstance(contracts, Contracts) and contracts.wrapped is patched:
+            patched = contracts.wrap(contracts.func)
+        for base in bases:
             other = getattr(base, self._func.__name__, None)
-            if other is None:
+            if other is None or other is self._func:
                 continue
             contracts = getattr(other, ATTR, None)
             if contracts is None:
